@@ -275,12 +275,9 @@ class LetExpression(TypedExpression):
             [layer for layer in list(value_state.stack) if layer.get("scope")]
         )
         if not self.local_variables:
+            # Nothing to lift: the body keeps its own scope and scope layers.
             return self.value.model_copy(
-                update={
-                    "before": body_before,
-                    "after": body_after,
-                    "scope_state": ScopeState(stack=scope_stack),
-                }
+                update={"before": body_before, "after": body_after}
             )
         return self.value.model_copy(
             update={
